@@ -175,7 +175,7 @@ func genStrMap(rng *Rng, max int) *g4 {
 
 func genScalarList(rng *Rng, max int) *g4 {
 	g := &g4{kind: 2}
-	for _, s := range pickN(rng, []string{"p", "q", "r", "1", `"1"`, "--v=2", "x y"}, rng.Intn(max+1)) {
+	for _, s := range pickN(rng, []string{"p", "q", "r", `"1"`, "--v=2", "x y"}, rng.Intn(max+1)) {
 		g.vals = append(g.vals, gS(s))
 	}
 	return g
@@ -220,7 +220,11 @@ func genPorts(rng *Rng, key string) *g4 {
 func genContainer(rng *Rng, name string) *g4 {
 	c := gM("name", name, "image", name+":"+rng.Pick([]string{"1", "2", "latest"}))
 	if rng.Chance(40) {
-		c.set("args", genScalarList(rng, 3))
+		a := genScalarList(rng, 3)
+		if rng.Chance(30) {
+			a.vals = append(a.vals, gS("1")) // atomic lists may mix types
+		}
+		c.set("args", a)
 	}
 	if rng.Chance(50) {
 		c.set("env", genEnv(rng))
@@ -299,7 +303,11 @@ func genMeta(rng *Rng, name string) *g4 {
 		m.set("annotations", genStrMap(rng, 3))
 	}
 	if rng.Chance(25) {
-		m.set("finalizers", genScalarList(rng, 3))
+		f := &g4{kind: 2}
+		for _, s := range pickN(rng, []string{"p", "q", "r", "x y", "--v=2"}, rng.Intn(4)) {
+			f.vals = append(f.vals, gS(s))
+		}
+		m.set("finalizers", f)
 	}
 	if rng.Chance(10) {
 		m.set("creationTimestamp", gS("null"))
@@ -384,6 +392,7 @@ func genTarget(rng *Rng) (*g4, kindSpec) {
 		t.set("spec", genCustomBody(rng, 3))
 		if rng.Chance(30) {
 			// an embedded typed object: the walker picks a schema up from kind/apiVersion wherever it has none
+			ks.kind = "Foo+embedded"
 			t.get("spec").set("template", gM("apiVersion", "v1", "kind", "Pod", "metadata", gM("name", "p"), "spec", genPodSpec(rng)))
 		}
 	}
@@ -394,7 +403,7 @@ func genTarget(rng *Rng) (*g4, kindSpec) {
 
 // listKeyOf guesses the merge key the elements of a list of maps are addressed by.
 func listKeyOf(l *g4) string {
-	for _, k := range []string{"name", "containerPort", "port", "mountPath", "key"} {
+	for _, k := range []string{"containerPort", "port", "mountPath", "name", "key"} {
 		all := len(l.vals) > 0
 		for _, e := range l.vals {
 			if e.kind != 1 || e.get(k) == nil {
@@ -412,6 +421,9 @@ type pgen struct {
 	rng *Rng
 	adv int // percentage of adversarial choices
 	ops map[string]int
+	// keyed: lists of mappings are addressed element-wise (the kind has a schema, or inference is on);
+	// otherwise the grammar only replaces lists
+	keyed bool
 }
 
 func (p *pgen) op(s string) { p.ops[s]++ }
@@ -452,9 +464,12 @@ func (p *pgen) patchMap(t *g4, depth int, root bool) *g4 {
 		if root && (k == "apiVersion" || k == "kind" || k == "metadata") {
 			continue
 		}
-		touch := 35
+		touch := 22
+		if v.kind != 0 {
+			touch = 62 // descend: the keyed lists sit four levels down
+		}
 		if depth <= 1 {
-			touch = 55
+			touch += 15
 		}
 		if !rng.Chance(touch) {
 			continue
@@ -595,6 +610,23 @@ func (p *pgen) patchList(v *g4, depth int) *g4 {
 		return gS("null")
 	}
 	key := listKeyOf(v)
+	if key == "key" || (!p.keyed && key != "") {
+		// a list of mappings that the implementation treats as atomic: replace it by an edited copy
+		p.op("atomic-maplist-replace")
+		out := &g4{kind: 2}
+		for _, e := range v.vals {
+			if rng.Chance(60) {
+				out.vals = append(out.vals, e.clone())
+			}
+		}
+		if rng.Chance(60) {
+			out.vals = append(out.vals, p.newElem(key, rng.Pick([]string{"new1", "new2"})))
+		}
+		return out
+	}
+	if key == "containerPort" || key == "port" {
+		p.op("multi-key-list")
+	}
 	if key == "" {
 		// list of scalars (or mixed): replace / extend
 		out := &g4{kind: 2}
@@ -607,7 +639,7 @@ func (p *pgen) patchList(v *g4, depth int) *g4 {
 					out.vals = append(out.vals, e.clone())
 				}
 			}
-			out.vals = append(out.vals, gS(rng.Pick([]string{"n1", "n2", "p", "1"})))
+			out.vals = append(out.vals, gS(rng.Pick([]string{"n1", "n2", "p", "x y"})))
 		case r < 75:
 			p.op("scalar-list-replace")
 			out = genScalarList(rng, 3)
@@ -690,6 +722,9 @@ func (p *pgen) patchList(v *g4, depth int) *g4 {
 			out.vals = append(out.vals, ne)
 		case r < 88:
 			p.op("elem-same")
+			if e.get("ports") != nil {
+				p.op("multi-key-list")
+			}
 			out.vals = append(out.vals, e.clone())
 		case r < 94:
 			p.op("elem-replace-directive")
@@ -768,8 +803,8 @@ func (p *pgen) newElem(key, val string) *g4 {
 }
 
 // genPatch builds the whole patch document for target t.
-func genPatch(rng *Rng, t *g4, adv int) (*g4, map[string]int) {
-	p := &pgen{rng: rng, adv: adv, ops: map[string]int{}}
+func genPatch(rng *Rng, t *g4, adv int, keyed bool) (*g4, map[string]int) {
+	p := &pgen{rng: rng, adv: adv, ops: map[string]int{}, keyed: keyed}
 	body := p.patchMap(t, 5, true)
 	out := &g4{kind: 1}
 	// identity fields as kustomize patches carry them
@@ -806,6 +841,8 @@ type case04 struct {
 	Patch   string `json:"patch"`
 	Infer   bool   `json:"infer"`
 	Prepend bool   `json:"prepend"`
+	Domain  string `json:"domain,omitempty"` // "D": pure grammar, unique keys; "Dnull": D + a null-valued target field; "": outside
+	RefDom  bool   `json:"refdom,omitempty"` // inside the domain of the comparison with the k8s reference implementation
 	Note    string `json:"note,omitempty"`
 }
 
@@ -880,6 +917,12 @@ func caseTerm04(c case04) (term string, cls string, out *kyaml.RNode, ok bool) {
 		return "", "unrepresentable", nil, false
 	}
 	sch := dumpSchemaTree(t, p)
+	if multiKeyDirective {
+		// Domain restriction of the correspondence (design.d/C04.md): the model does not write directive
+		// elisions back into the patch. That is observable only when one key tuple of a multi-key list is
+		// walked twice (mergeValues made two tuples equal) and a directive sits below the element.
+		return "", "multi-key-list-with-directive", nil, false
+	}
 	ns := nonstrOf(t, p)
 	cls, out, _ = apply04(p, t, c.Infer, c.Prepend)
 	res := "oN"
@@ -908,14 +951,15 @@ func genCase04(rng *Rng) (case04, map[string]int, kindSpec) {
 	default:
 		adv = 45
 	}
-	if adv > 0 && rng.Chance(adv/2) {
-		// adversarial targets: implicit nulls, explicit nulls
+	nullTarget := false
+	if rng.Chance(12) {
+		// targets with a null-valued field (implicit "k:" or explicit null / ~)
 		if s := t.get("spec"); s != nil && s.kind == 1 {
-			s.set(rng.Pick([]string{"nullish", "zeta"}), gS(rng.Pick([]string{"", "null", "~"})))
+			s.set(rng.Pick([]string{"nullish", "zeta"}), gS(rng.Pick([]string{"", "", "null", "~"})))
+			nullTarget = true
 		}
 	}
-	p, ops := genPatch(rng, t, adv)
-	c := case04{Target: t.yaml(), Patch: p.yaml()}
+	c := case04{}
 	switch r := rng.Intn(100); {
 	case r < 65:
 		c.Infer, c.Prepend = false, true
@@ -925,6 +969,28 @@ func genCase04(rng *Rng) (case04, map[string]int, kindSpec) {
 		c.Infer, c.Prepend = true, false
 	default:
 		c.Infer, c.Prepend = true, true
+	}
+	p, ops := genPatch(rng, t, adv, c.Infer || !strings.HasPrefix(ks.kind, "Foo"))
+	c.Target, c.Patch = t.yaml(), p.yaml()
+	pure := true
+	for k := range ops {
+		if strings.HasPrefix(k, "adv:") {
+			pure = false
+		}
+	}
+	// Domain D of the law oracles (= hypotheses of the theorems / the property's quantifier): pure grammar,
+	// unique keys, single merge key (patches that address a port list, keyed by containerPort/port + protocol,
+	// are outside), root kinds of the property (no typed object embedded in a schema-less kind).
+	if pure && uniqueKeyTuples(t) && uniqueKeyTuples(p) && ops["multi-key-list"] == 0 && ks.kind != "Foo+embedded" {
+		c.Domain = "D"
+		if nullTarget {
+			c.Domain = "Dnull"
+		}
+		// Reference comparison: outside its domain are (stated in design.d/C04.md)
+		//  - "$patch: delete" on a map (the reference leaves {} instead of removing the key),
+		//  - "$patch: merge" and a bare list-level "- $patch: delete" (the reference rejects them).
+		c.RefDom = ops["delete-map"] == 0 && ops["merge-directive-map"] == 0 && ops["list-merge-directive"] == 0 &&
+			ops["elem-merge-directive"] == 0 && ops["list-delete-directive"] == 0
 	}
 	return c, ops, ks
 }
@@ -940,6 +1006,9 @@ func runC04(r *Run, rng *Rng, tier string) error {
 		"add/merge/delete, list-level $patch, atomic-list replace, set-list merge} plus adversarial shapes (directives on absent " +
 		"content, unknown directives, kind mismatches, elements without key, duplicate keys, null elements). " +
 		"non-trivial = result differs from the target; distinct by hash of the case term"
+	// NewRng(seed) states of consecutive seeds are one step apart on the same splitmix stream (seed 2 would
+	// replay seed 1 shifted by one case): decorrelate by forking once.
+	rng = rng.Fork()
 	for _, c := range loadCorpus04() {
 		runOne04(r, c, nil, kindSpec{"corpus", ""})
 	}
@@ -977,6 +1046,14 @@ func runOne04(r *Run, c case04, ops map[string]int, ks kindSpec) {
 	}
 	r.Count("changed", fmt.Sprint(nontrivial))
 	r.AddCase(term, c, nontrivial)
+	// law oracles on the implementation, inside the domain of the theorems
+	r.Count("domain", "dom="+c.Domain)
+	if c.Domain != "" {
+		for _, v := range laws04(c, c.Domain) {
+			r.Count("law_failures", v.Class)
+			r.Violation(OracleViolation{Law: v.Law, Class: v.Class, Detail: v.Detail, Replay: c})
+		}
+	}
 }
 
 func loadCorpus04() []case04 {
@@ -1007,5 +1084,9 @@ func replayC04(path string) (bool, string, error) {
 	}
 	detail := fmt.Sprintf("class=%s msg=%q result:\n%s", cls, msg, res)
 	_ = sort.Strings
-	return cls == ClsPanic, detail, nil
+	vs := laws04(rp.Case, "")
+	for _, v := range vs {
+		detail += fmt.Sprintf("\nLAW %s class=%s: %s", v.Law, v.Class, v.Detail)
+	}
+	return cls == ClsPanic || len(vs) > 0, detail, nil
 }
